@@ -23,6 +23,17 @@ func (e *Exec) typeOf(x ast.Expr) types.Type {
 	return nil
 }
 
+// strLitBytes states the bytes of a short string literal (prefix tests, one-character separators)
+func (e *Exec) strLitBytes(id int, s string) {
+	if len(s) == 0 || len(s) > 4 {
+		return
+	}
+	e.declareFun("strat", []string{SInt, SInt}, SInt)
+	for i := 0; i < len(s); i++ {
+		e.addFact(mkEq(sx("strat", mkInt(int64(id)), mkInt(int64(i))), mkInt(int64(s[i]))))
+	}
+}
+
 func (e *Exec) constVal(v constant.Value, t types.Type) Val {
 	switch v.Kind() {
 	case constant.Bool:
@@ -36,6 +47,7 @@ func (e *Exec) constVal(v constant.Value, t types.Type) Val {
 		s := constant.StringVal(v)
 		id := e.g.strID(s)
 		e.addFact(mkEq(sx("strlen", mkInt(int64(id))), mkInt(int64(len(s)))))
+		e.strLitBytes(id, s)
 		return iv(mkInt(int64(id)))
 	case constant.Float:
 		if kindOf(t) == kInt {
